@@ -47,8 +47,9 @@ class C11(Check):
             base_sealed = rng.random() < 0.5
             base_n = rng.randint(0, 3)
             base_ext = 8 * rng.randint(base_n, base_n + 4)
+            wide_minors = rng.random() < 0.25  # minors with different digit counts (9 vs 10, 3 vs 25, 20 vs 100)
             for M in majors:
-                m = rng.randint(0, 4)
+                m = rng.choice([2, 3, 9, 10, 11, 20, 25, 99, 100, 101, 255]) if wide_minors else rng.randint(0, 4)
                 if (M, m) == (0, 0) or (rn, short, M, m) in used:
                     continue
                 used.add((rn, short, M, m))
@@ -103,7 +104,12 @@ class C11(Check):
             ri, tgt = rng.choice(msgs)
             host_root = rng.choice([x for x in range(len(roots))])
             rn = roots[host_root]["name"]
-            ref = {"name": "%s.Ref%d" % (rn, i), "ver": [1, 0], "port": None, "ext": "dsdl", "dep": False,
+            rport = None
+            if rng.random() < 0.3:
+                # the referrer carries a fixed port-ID too - sometimes the one of the definition it refers to (a collision between a
+                # target and a definition that was first reached as its dependency)
+                rport = tgt.get("port") if (tgt.get("port") is not None and rng.random() < 0.6) else rng.choice(mports)
+            ref = {"name": "%s.Ref%d" % (rn, i), "ver": [1, 0], "port": rport, "ext": "dsdl", "dep": False,
                    "secs": [{"union": False, "hdr": None, "seal": "sealed", "items": [["f", ["ref", tgt["name"], tgt["ver"][0], tgt["ver"][1]], "r"]]}]}
             roots[host_root]["defs"].append(ref)
         if not any(r0["defs"] for r0 in roots):
